@@ -44,7 +44,7 @@ ASSUMPTIONS = [
 HISTORY_CHECK = True   # last runs of every chunk are re-observed alone in a fresh interpreter
 
 TIERS = {
-    "quick":    {"runs": 4800,   "chunk": 100,  "hash_seeds": [0], "max_steps": 10, "timeout": 900},
+    "quick":    {"runs": 5600,   "chunk": 100,  "hash_seeds": [0], "max_steps": 10, "timeout": 900},
     "thorough": {"history_check_cap": 200, "runs": 32000, "chunk": 400, "max_wall": 2400, "hash_seeds": [0, 11], "max_steps": 12, "timeout": 3400},
     "selftest": {"runs": 160,    "chunk": 20,   "hash_seeds": [0], "max_steps": 10, "timeout": 300},
 }
